@@ -1420,6 +1420,19 @@ def merge_allof(doc, schemas):
             elif k == "enum":
                 out[k] = [x for x in a if any(jeq(x, y) for y in v)]
                 if not out[k]: raise Unsat("disjoint enums in allOf")
+            elif k == "items":
+                # positional item schemas are intersected position by position, a single item schema with every position
+                if isinstance(a, list) or isinstance(v, list):
+                    la = a if isinstance(a, list) else None; lv = v if isinstance(v, list) else None
+                    n = max(len(la or []), len(lv or []))
+                    def at(l, single, i): return (l[i] if i < len(l) else True) if l is not None else single
+                    its = []
+                    for i in range(n):
+                        x, y = at(la, a, i), at(lv, v, i)
+                        its.append(x if (y is True or is_any(y) or canon(x) == canon(y)) else (y if (x is True or is_any(x)) else {"allOf": [x, y]}))
+                    out[k] = its
+                elif canon(a) != canon(v):
+                    out[k] = v if (a is True or is_any(a)) else (a if (v is True or is_any(v)) else {"allOf": [a, v]})
             elif k in _MERGE_MAX: out[k] = max(a, v)
             elif k in _MERGE_MIN: out[k] = min(a, v)
             elif canon(a) == canon(v): pass
